@@ -54,9 +54,13 @@ ASSUMPTIONS = [
     "one injected fault per execution; faults after listen() has fired are outside the property (the run is then judged as a success run)",
     "loopback = 127.0.0.0/8 or ::1; the Target sent to Tor must be <that interface>:<bound port> (127.0.0.1 in practice)",
     "the local_port= argument is a wish, not an obligation: the property only demands that Tor forwards to the port really bound",
-    "'listen fails with that error': the failure is the injected exception / a TorProtocolError carrying Tor's status code / "
-    "CannotListenError, or any exception whose text contains the injected text; for 'all uploads failed' and for a lost control "
-    "connection any failure is accepted",
+    "'listen fails with that error': the failure is the error itself, never an aggregate that wraps it (twisted's FirstError and the like): the injected "
+    "exception object/class for an unavailable config, CannotListenError for the bind, a TorProtocolError carrying Tor's status code when Tor "
+    "refused the creating command, an error naming this service for 'all uploads failed', CancelledError (TimeoutError through addTimeout) when the "
+    "caller cancelled; for a lost control connection any non-wrapping failure is accepted (the types seen are listed in the evidence)",
+    "caller-side cancellation: listen()'s Deferred is cancelled right after the call, while the k-th command line is unanswered (every k), "
+    "inside the descriptor wait, and by an addTimeout(600) expiring there: listen() must then fail (never succeed), exactly once, and leave no "
+    "listener open; a creating command already queued in the control protocol may still go out afterwards - not judged",
     "a lost control connection while listen() is waiting for the descriptor is a failure of the descriptor wait (Tor drops a "
     "non-detached service with its control connection; no further HS_DESC can arrive): listen() must fail and release the port",
     "upload histories are chosen so that the C15 findings do not matter: every own UPLOAD precedes every own result, foreign "
@@ -125,7 +129,8 @@ FLOORS = {
     "quick": {"evaluations": 1400, "listen_calls": 1400, "listeners_checked_loopback": 1200, "mappings_compared": 800,
               "not_fired_checks": 4500, "not_fired_nor_failed_on_foreign_events_checks": 500, "foreign_window_runs": 120, "gethost_compared": 180, "stop_checked": 180, "stops_after_restart_checked": 90, "leak_checks_after_failure": 1200,
               "failure_errors_compared": 1000, "refusals_before_start_checked": 10, "reactor_watched_for_starts_before_refusal": 14, "config_bootstrap_failures_compared": 150,
-              "preconfigured_directory_runs": 15, "relisten_runs": 300, "relisten_successes_checked": 150,
+              "preconfigured_directory_runs": 15, "cancellations_checked": 400, "cancelled:cancelled-during-descriptor-wait": 120, "cancelled:cancelled-while-creating": 100,
+              "cancelled:cancelled-before-bind": 40, "relisten_runs": 300, "relisten_successes_checked": 150,
               "relisten_open_listener_checks": 100, "relisten_failures_checked": 15, "relisten:after-stop-port-taken": 60,
               "relisten:after-service-removed": 60, "relisten:without-stop": 60, "fault:reject-line": 120, "route:ctor-raw": 100, "fault:close-on-line": 300,
               "fault:close-after-reply": 300, "fault:reject": 120, "fault:uploads-failed": 180, "fault:bind": 90, "fault:config": 40,
@@ -137,7 +142,8 @@ FLOORS = {
     "thorough": {"evaluations": 4500, "listen_calls": 4500, "listeners_checked_loopback": 3500, "mappings_compared": 2500,
                  "not_fired_checks": 14000, "not_fired_nor_failed_on_foreign_events_checks": 900, "foreign_window_runs": 200, "gethost_compared": 500, "stop_checked": 500, "stops_after_restart_checked": 250, "leak_checks_after_failure": 3500,
                  "failure_errors_compared": 3000, "refusals_before_start_checked": 10, "reactor_watched_for_starts_before_refusal": 14, "config_bootstrap_failures_compared": 400,
-                 "preconfigured_directory_runs": 15, "relisten_runs": 400, "relisten_successes_checked": 200,
+                 "preconfigured_directory_runs": 15, "cancellations_checked": 900, "cancelled:cancelled-during-descriptor-wait": 200, "cancelled:cancelled-while-creating": 200,
+                 "cancelled:cancelled-before-bind": 150, "relisten_runs": 400, "relisten_successes_checked": 200,
                  "relisten_open_listener_checks": 130, "relisten_failures_checked": 20, "relisten:after-stop-port-taken": 70,
                  "relisten:after-service-removed": 70, "relisten:without-stop": 70, "fault:reject-line": 400, "route:ctor-raw": 400, "fault:close-on-line": 1200,
                  "fault:close-after-reply": 1200, "fault:reject": 300, "fault:uploads-failed": 450, "fault:bind": 250, "fault:config": 100,
@@ -259,6 +265,8 @@ def base_faults(route, cell):
     if route not in LAZY:
         f.append(["lose", "before-listen"])
     f.append(["lose", "after-upload"])
+    # the caller of listen() gives up (d.cancel() / an addTimeout expiring): right after the call, and inside the descriptor wait
+    f += [["cancel", "after-listen"], ["cancel", "descriptor-wait"], ["cancel", "timeout-in-descriptor-wait"]]
     # histories on ONE endpoint object: listen() again after the returned port was stopped / without stopping it /
     # after a failed listen() (the injected fault hits the first listen() only)
     f += [["none", "relisten", "after-stop"], ["none", "relisten", "without-stop"],
@@ -267,13 +275,15 @@ def base_faults(route, cell):
     return f
 
 
-def line_faults(n_lines, route=None, ks=None):
+def line_faults(n_lines, route=None, ks=None, cancel_ks=None):
     f = []
     for k in (ks if ks is not None else range(1, n_lines + 1)):
         f.append(["close-on-line", k])
         f.append(["close-after-reply", k])
         if route in OWN_CONFIG:
             f.append(["reject-line", k])         # Tor answers 5xx to the k-th line and stays connected
+        if cancel_ks is None or k in cancel_ks:
+            f.append(["cancel-on-line", k])      # the caller cancels listen()'s Deferred while the k-th line is unanswered
     return f
 
 
@@ -289,7 +299,8 @@ def invalid_cases():
         out.append({"invalid": name, "route": "tor-lazy"})
     for name in ("str:key+keyfile", "str:hsdir+key", "str:hsdir+keyfile", "str:singlehop-bogus", "str:version-foo", "str:version-1",
                  "str:version-4", "str:public-port-not-int", "str:local-port-not-int", "str:keyfile-garbage", "str:hsdir+singlehop",
-                 "str:unknown-keyword"):
+                 "str:unknown-keyword", "str:empty-hsdir+singlehop", "str:empty-hsdir+key", "str:empty-hsdir+keyfile", "str:empty-keyfile",
+                 "str:empty-version", "str:empty-localport", "str:empty-singlehop", "str:empty-public-port"):
         for route in ("str-system", "str-system-unix", "str-global", "str-global-unseeded"):
             out.append({"invalid": name, "route": route})
     res = []
@@ -400,6 +411,8 @@ class Obs(object):
         self.rejected_line = None
         self.uploaded_for = {}            # service id -> own UPLOADED events sent so far
         self.relisten = None              # observations of the second listen() on the same endpoint object
+        self.first_sid = None             # HS_DESC address of the service of the first listen()
+        self.cancelled = None             # {"bound": bool, "create_acked": bool, "how": ...} when the caller cancelled before listen() fired
         self.first_listen_calls = None
         self.first_create_seen = None
         self.started_before_refusal = None
@@ -514,6 +527,8 @@ class World(object):
         if f[0] == "close-on-line" and self.armed_lines == f[1]:
             self.tor.scripted.insert(0, (lambda l: True, "close", True))
             self.obs.lost_by_fault = True
+        if f[0] == "cancel-on-line" and self.armed_lines == f[1]:
+            self.cancel_listen("cancel() while line %d is unanswered" % f[1])
         if f[0] == "reject-line" and self.armed_lines == f[1]:
             self.tor.scripted.insert(0, (lambda l: True, (552, [("end", "Unrecognized or refused: %s (%s)" % (w, MARK))]), True))
             self.obs.rejected_line = line
@@ -562,6 +577,15 @@ class World(object):
         for e in self.logs.take():
             if len(self.obs.log_errors) < 6:
                 self.obs.log_errors.append((name, e[0], e[1][:160]))
+
+    def cancel_listen(self, how):
+        """the caller of listen() cancels the Deferred it was given (only meaningful while it has not fired)"""
+        d, o = getattr(self, "listen_deferred", None), self.obs.outcome
+        if d is None or o is None or o.fired or self.obs.cancelled is not None:
+            return False
+        self.obs.cancelled = {"bound": bool([c for c in self.obs.listen_calls if c["ok"]]), "create_acked": _create_acked(self), "how": how}
+        d.cancel()
+        return True
 
     def lose(self):
         if self.link is not None and not self.link.lost:
@@ -906,6 +930,24 @@ class World(object):
             return serverFromString(r, "onion:%d%s:hiddenServiceDir=%s:singleHop=true" % (port, cp, self._q(d)))
         if inv == "str:unknown-keyword":
             return serverFromString(r, "onion:%d%s:noSuchOption=1" % (port, cp))
+        # options given with an EMPTY value
+        if inv == "str:empty-hsdir+singlehop":
+            return serverFromString(r, "onion:%d%s:hiddenServiceDir=:singleHop=true" % (port, cp))
+        if inv == "str:empty-hsdir+key":
+            return serverFromString(r, "onion:%d%s:hiddenServiceDir=:privateKey=%s" % (port, cp, self._q(rsa.spec())))
+        if inv == "str:empty-hsdir+keyfile":
+            p = self._keyfile(rsa.pem)
+            return serverFromString(r, "onion:%d%s:hiddenServiceDir=:privateKeyFile=%s" % (port, cp, self._q(p)))
+        if inv == "str:empty-keyfile":
+            return serverFromString(r, "onion:%d%s:privateKeyFile=" % (port, cp))
+        if inv == "str:empty-version":
+            return serverFromString(r, "onion:%d%s:version=" % (port, cp))
+        if inv == "str:empty-localport":
+            return serverFromString(r, "onion:%d%s:localPort=" % (port, cp))
+        if inv == "str:empty-singlehop":
+            return serverFromString(r, "onion:%d%s:singleHop=" % (port, cp))
+        if inv == "str:empty-public-port":
+            return serverFromString(r, "onion:%s" % cp)
         raise AssertionError("unknown invalid case " + inv)
 
     # -- the config becomes available (or not) -----------------------------------
@@ -981,7 +1023,12 @@ def execute(case):
             obs.listen_raised = e
             w.step("listen-raised")
             return w
+        w.listen_deferred = d
+        if w.fault == ["cancel", "timeout-in-descriptor-wait"]:
+            d.addTimeout(600, w.reactor)        # the caller's own timeout, on the reactor listen() was given
         o = obs.outcome = w.aud.watch(d, "listen")
+        if w.fault == ["cancel", "after-listen"]:
+            w.cancel_listen("cancel() right after listen() returned")
         relisten_mode = None
         if "relisten" in w.fault:
             relisten_mode = w.fault[2] if w.fault[0] == "none" else "after-failed-listen"
@@ -1052,6 +1099,7 @@ def execute(case):
             w.step("released")
         if svc is not None:
             addr, obs.expected_host, obs.expected_host_judged = svc
+            obs.first_sid = addr
             foreign = OT.KEYS.ed(78).service_id if len(addr) == 56 else OT.KEYS.rsa(OT.CALLER_BASE + 1).service_id
             n = int(w.cell.get("ndirs") or 1)
             if w.fault[0] == "uploads-failed":
@@ -1070,6 +1118,13 @@ def execute(case):
             if w.fault == ["lose", "after-upload"]:
                 w.lose()
                 w.step("lost")
+            if w.fault == ["cancel", "descriptor-wait"]:
+                w.cancel_listen("cancel() inside the descriptor wait")
+                w.step("cancelled")
+            if w.fault == ["cancel", "timeout-in-descriptor-wait"] and not o.fired:
+                obs.cancelled = {"bound": True, "create_acked": _create_acked(w), "how": "addTimeout(600) expiring inside the descriptor wait"}
+                w.reactor.advance(601)
+                w.step("timed-out")
             if w.fault[0] == "uploads-failed":
                 for i in range(n):
                     if w.tor.hs_desc("FAILED", addr, i, descid=AO.descriptor_id(addr, i), reason="UPLOAD_REJECTED"):
@@ -1288,6 +1343,9 @@ def kind_of(cell):
 def failing_step(w):
     """which step of listen() the failure of this run belongs to (structural; used in the mechanism key)"""
     obs, f = w.obs, w.fault
+    if obs.cancelled is not None:
+        c = obs.cancelled
+        return "cancelled-" + ("during-descriptor-wait" if c["create_acked"] else "while-creating" if c["bound"] else "before-bind")
     if f[0] == "config":
         return "config"
     if f[0] == "bind":
@@ -1371,6 +1429,9 @@ def error_matches(w, exc):
     text = "%s %s" % (type(exc).__name__, exc)
     if w.cell.get("pre"):
         return True             # directory already configured: whatever error
+    if w.obs.cancelled is not None:
+        # the caller's own cancellation (addTimeout turns it into TimeoutError)
+        return type(exc).__name__ in (("CancelledError", "TimeoutError") if f[:2] == ["cancel", "timeout-in-descriptor-wait"] else ("CancelledError",))
     if config_bootstrap_failed(w):
         want = w.obs.config_bootstrap[1]
         return exc is want or (type(exc) is type(want) and str(exc) == str(want)) or bool(str(want) and str(want) in str(exc))
@@ -1381,9 +1442,18 @@ def error_matches(w, exc):
     if f[0] == "bind":
         return isinstance(exc, error.CannotListenError) or "CannotListenError" in text
     code = _create_reply(w)
-    if f[0] == "reject" or (f[0] == "none" and code is not None and code >= 400):
-        return getattr(exc, "code", None) == code or MARK in text or str(code) in text
+    if code is not None and code >= 400 and f[0] in ("reject", "none", "reject-line"):
+        # Tor's refusal itself: the protocol error carrying Tor's status code (not a text that merely quotes it)
+        return type(exc).__name__ == "TorProtocolError" and getattr(exc, "code", None) == code
+    if f[0] == "uploads-failed":
+        # the failure of THIS service's descriptor wait
+        return w.obs.first_sid is None or w.obs.first_sid in str(exc)
     return True
+
+
+def is_wrapper(exc):
+    """an aggregate / wrapping exception (twisted's FirstError and the like) instead of the error itself"""
+    return hasattr(exc, "subFailure") or type(exc).__name__ in ("FirstError", "ExceptionGroup", "BaseExceptionGroup")
 
 
 def judge(w, rec, case):
@@ -1548,7 +1618,8 @@ def judge_first(w, rec, case):
         want = [(cell["public_port"], (lp.interface, lp.port)) for lp in bound[:1]]
         if m != want:
             V("port-mapping-mismatch", kind, {"sent": m, "bound": want, "line": cs["line"][:200]})
-        elif (bound[0].interface, bound[0].port) not in cs["open"]:
+        elif (bound[0].interface, bound[0].port) not in cs["open"] and obs.cancelled is None:
+            # (after a cancellation by the caller the already queued creating command still goes out: not judged)
             V("port-mapping-names-closed-listener", kind, {"sent": m, "open": cs["open"]})
 
     # ---- classification of the run -----------------------------------------------------------------
@@ -1601,6 +1672,8 @@ def judge_first(w, rec, case):
             V("listen-succeeded-despite-failure", failing_step(w) + "+" + kind, {"host": obs.host})
         if natural_failure:
             V("listen-succeeded-despite-failure", failing_step(w) + "+" + kind, {"host": obs.host, "tor_code": code})
+        if obs.cancelled is not None:
+            V("listen-succeeded-after-caller-cancelled", failing_step(w) + "+" + kind, {"cancelled": obs.cancelled, "host": obs.host})
         if config_bootstrap_failed(w):
             V("listen-succeeded-despite-failure", "config-bootstrap+" + kind,
               {"config_error": "%s: %s" % (type(obs.config_bootstrap[1]).__name__, obs.config_bootstrap[1]), "rejected_line": obs.rejected_line})
@@ -1679,6 +1752,12 @@ def judge_first(w, rec, case):
         V("listen-pending-after-failure", cls, {"lost": bool(w.link is not None and w.link.lost), "open": obs.open_at_end})
         return bad, True
     rec.count("failure_errors_compared")
+    rec.seen("failure_types", "%s: %s" % (step, type(o.value).__name__))
+    if obs.cancelled is not None:
+        rec.count("cancellations_checked")
+        rec.count("cancelled:" + step)
+    if is_wrapper(o.value):
+        V("listen-failed-with-a-wrapped-error", cls, {"got": "%s: %s" % (type(o.value).__name__, str(o.value)[:300])})
     if config_bootstrap_failed(w):
         rec.count("config_bootstrap_failures_compared")
     if not error_matches(w, o.value):
@@ -1779,7 +1858,8 @@ def run_shard(spec, rec):
                     if spec.get("max_lines") and route in LAZY:
                         # quick tier: every line of the short dialogues, a stride through the long (bootstrap) ones
                         ks = sorted(set(range(1, nl + 1)[::spec.get("stride", 1)]) | set(range(max(1, nl - 5), nl + 1)))
-                        faults += line_faults(nl, route, ks)
+                        # (cancellation during the long bootstrap: a coarser stride, every line of the tail)
+                        faults += line_faults(nl, route, ks, set(range(1, nl + 1)[::2 * spec.get("stride", 1)]) | set(range(max(1, nl - 5), nl + 1)))
                     else:
                         faults += line_faults(nl, route)
                     rec.count("dialogue_lines_enumerated", nl)
